@@ -95,11 +95,119 @@ func flipOp(op token.Token) token.Token {
 	return map[token.Token]token.Token{token.EQL: token.EQL, token.NEQ: token.NEQ, token.LSS: token.GTR, token.LEQ: token.GEQ, token.GTR: token.LSS, token.GEQ: token.LEQ}[op]
 }
 
+// lenPredicate recognises a call of a small boolean helper whose body is
+// `return len(p.field) OP k` (p a parameter / receiver): isEmpty(), hasEnd(), …
+// It returns the argument bound to p, the field, and the comparison, so that a
+// branch on the helper counts like a branch on the comparison itself.
+func lenPredicate(v ssa.Value) (base ssa.Value, fieldIdx int, fieldName string, op token.Token, k int64, ok bool) {
+	call, isCall := core.Resolve(v).(*ssa.Call)
+	if !isCall {
+		return
+	}
+	g := call.Call.StaticCallee()
+	if g == nil || g.Blocks == nil || g.Signature.Results().Len() != 1 || len(g.Blocks) != 1 {
+		return
+	}
+	rets := returnsIn(g)
+	if len(rets) != 1 {
+		return
+	}
+	bin, isBin := core.Resolve(rets[0].Results[0]).(*ssa.BinOp)
+	if !isBin {
+		return
+	}
+	l, r, o := bin.X, bin.Y, bin.Op
+	if lenArg(l) == nil && lenArg(r) != nil {
+		l, r, o = r, l, flipOp(o)
+	}
+	la := lenArg(l)
+	kk, isK := core.ConstInt(r)
+	if la == nil || !isK {
+		return
+	}
+	var owner ssa.Value
+	switch x := core.Resolve(la).(type) {
+	case *ssa.UnOp:
+		if fa, isFa := x.X.(*ssa.FieldAddr); isFa {
+			owner, fieldIdx = fa.X, fa.Field
+			_, fieldName, _ = core.FieldName(fa)
+		}
+	case *ssa.Field:
+		owner, fieldIdx = x.X, x.Field
+		_, fieldName, _ = core.FieldName(x)
+	}
+	if owner == nil {
+		return
+	}
+	pa, isParam := core.Resolve(owner).(*ssa.Parameter)
+	if !isParam {
+		// a by-value receiver / parameter spilled to a local variable
+		if a, isAlloc := core.Resolve(owner).(*ssa.Alloc); isAlloc {
+			if sts := core.StoresTo(a); len(sts) == 1 {
+				pa, isParam = core.Resolve(sts[0].Val).(*ssa.Parameter)
+			}
+		}
+	}
+	if !isParam {
+		return
+	}
+	for i, q := range g.Params {
+		if q == pa && i < len(call.Call.Args) {
+			return call.Call.Args[i], fieldIdx, fieldName, o, kk, true
+		}
+	}
+	return
+}
+
+// ownerKey identifies the struct a field is read from: the address it lives at
+// (for a struct value passed by copy: the variable it was copied from).
+func ownerKey(v ssa.Value) string {
+	v = core.Resolve(v)
+	if ld, ok := v.(*ssa.UnOp); ok && ld.Op == token.MUL {
+		return fmt.Sprintf("%p", core.Resolve(ld.X))
+	}
+	return fmt.Sprintf("%p", v)
+}
+
 // minLen computes a lower bound of len(x) that holds on entry to block `at`.
 func minLen(p *core.Program, x ssa.Value, at *ssa.BasicBlock) (int64, string) {
 	facts := core.FactsAt(at)
 	lo, why := producerMinLen(p, x, facts)
 	for _, f := range facts {
+		// a branch on a length predicate helper (isEmpty(), hasEnd(), …) over the same field of the same struct
+		if base, fidx, _, op, k, isPred := lenPredicate(f.Cond); isPred {
+			match := false
+			switch xv := core.Resolve(x).(type) {
+			case *ssa.UnOp:
+				if fa, isFa := xv.X.(*ssa.FieldAddr); isFa && fa.Field == fidx && (ownerKey(fa.X) == ownerKey(base) || core.SameValue(fa.X, base)) {
+					match = true
+				}
+			case *ssa.Field:
+				if xv.Field == fidx && ownerKey(xv.X) == ownerKey(base) {
+					match = true
+				}
+			}
+			if match {
+				if !f.Polarity {
+					op = map[token.Token]token.Token{token.EQL: token.NEQ, token.NEQ: token.EQL, token.LSS: token.GEQ, token.GEQ: token.LSS, token.GTR: token.LEQ, token.LEQ: token.GTR}[op]
+				}
+				n := lo
+				switch op {
+				case token.GTR:
+					n = k + 1
+				case token.GEQ, token.EQL:
+					n = k
+				case token.NEQ:
+					if k == 0 {
+						n = 1
+					}
+				}
+				if n > lo {
+					lo, why = n, fmt.Sprintf("dominating length predicate (len %s %d)", op, k)
+				}
+			}
+			continue
+		}
 		l, op, r, ok := cmpNorm(f)
 		if !ok {
 			continue
